@@ -42,4 +42,8 @@ for d in sorted(os.listdir(os.path.join(HERE, "seeded"))):
     json.dump(meta, open(os.path.join(sd, "meta.json"), "w"), indent=1)
     rows.append((d, p.returncode, failed))
     print("%-8s exit=%d %s" % (d, p.returncode, "; ".join(failed)[:200]), flush=True)
-json.dump([{"seed": a, "exit": b, "failed_obligations": c} for a, b, c in rows], open(os.path.join(HERE, "seeded", "MATRIX.json"), "w"), indent=1)
+mp = os.path.join(HERE, "seeded", "MATRIX.json")
+old = {r["seed"]: r for r in (json.load(open(mp)) if os.path.exists(mp) and only else [])}
+for a, b, c in rows:
+    old[a] = {"seed": a, "exit": b, "failed_obligations": c}
+json.dump([old[k] for k in sorted(old)], open(mp, "w"), indent=1)
